@@ -10,6 +10,8 @@ NAMES = ["a", "b", "a b", "ab", "job[1]", "x_c", "très"]   # no dots other than
 #     x            -> x.yaml            x.yml       -> x.yaml   (suffix REPLACED)       x.yaml -> x.yaml
 #     x.yml.yaml   -> x.yml.yaml  (another DAG, called "x.yml")                     x.yml.yml -> x.yml.yaml
 #     x.YAML, c.d  -> taken literally by the store, but the loader appends ".yaml" (x.YAML.yaml): O3, not generated
+# The client's rename looks both names up with dagStore.Find, which (since fix F50, 8b26466) falls back from the literal
+# spelling to that same file, so every spelling works as rename source and target.
 # So several spellings denote ONE DAG. `resolve` is the monitor's own notion of "the DAG a name denotes": the file
 # of the DAGs directory. Two names with the same file are the same target; create / rename onto a name whose file
 # exists must be refused and leave that file's bytes and its history untouched.
@@ -22,11 +24,6 @@ def resolve(name):
     if dot < 0: return name + ".yaml"
     if name[dot:] == ".yml": return name[:dot] + ".yaml"
     return name
-
-
-def finds_own_file(name):
-    """client.Rename looks both names up with dagStore.Find, which takes a spelling with an extension literally"""
-    return "." not in name or resolve(name) == name
 
 
 def ext_suffix(c, o):
@@ -168,8 +165,10 @@ class Spec:
             elif f2 in self.defs:
                 if not erred: yield ("rename-onto-existing-dag-not-refused" + sfx, "rename %r -> %r (denotes %s, which exists)" % (names[n], names[n2], f2))
             elif f in self.defs:
-                if erred and not finds_own_file(names[n]):
-                    pass                                # the client does not find a source spelled x.yml: refused, nothing may change
+                if erred and now == before_dir:
+                    # source exists (under whatever spelling, x.yml included), target free: nothing stands in the way
+                    yield ("rename:admissible-rename-refused" + sfx, "rename %r -> %r (%s exists, %s is free) answered with an error; nothing changed" % (names[n], names[n2], f, f2))
+                    self.resumable = True
                 elif erred and f not in now and now.get(f2) == self.defs[f]:
                     # neither refused-and-unchanged nor done: the answer is an error, yet the definition has moved
                     gh2 = sorted(d["hist"][first[f2]] or [])
